@@ -66,8 +66,6 @@ Fixpoint replace_colons (s : string) : string :=
   | EmptyString => EmptyString
   end.
 
-Definition field_name_str (f : field_name) : string :=
-  match f with FIdent s _ => s | FIndex n => N_to_string n end.
 
 Section Gen.
   Variable join_ok : bool.
